@@ -23,6 +23,9 @@ var Registry = map[string]func(args []int64){
 	"H_C01":       func(a []int64) { H_C01(int(a[0]), int(a[1])) },
 	"H_C06":       func(a []int64) { H_C06(int(a[0])) },
 	"H_C06ops":    func(a []int64) { H_C06ops(int(a[0])) },
+	"H_C02":       func(a []int64) { H_C02(int(a[0]), int(a[1])) },
+	"H_C03":       func(a []int64) { H_C03(int(a[0]), int(a[1]), int(a[2]), int(a[3])) },
+	"H_C03two":    func(a []int64) { H_C03two(int(a[0]), int(a[1])) },
 	"H_C04":       func(a []int64) { H_C04(int(a[0]), int(a[1])) },
 	"H_C05":       func(a []int64) { H_C05(int(a[0]), int(a[1])) },
 	"H_C05seed":   func(a []int64) { H_C05seed(int(a[0]), int(a[1])) },
